@@ -9,12 +9,16 @@ with zeros / inf / NaN at the floating types, conversions at four narrowing
 pairs against the scalar static_cast); static layout and interop-selection
 assertions are compiled against the current headers; the stream-output clause is
 run end to end on the real element types."""
-import os, re, struct
+import os, re, struct, sys
 import lib, troute
+sys.path.insert(0, os.path.dirname(os.path.abspath(__file__)))
+import c04_headers
 
 IMPORTS = ["ImathVerif.Basic.Maps", "ImathVerif.Gen.C04Vec", "ImathVerif.Gen.C04Color", "ImathVerif.Gen.C04Shear",
            "ImathVerif.Gen.C04Quat", "ImathVerif.Gen.C04Mat"]
 PROPS_OF_MODULE = {"C04Show": "ImathVerif.Props.C04Show", "C04Alias": "ImathVerif.Props.C04Alias"}   # every other Gen module: Props.C04
+LAYOUT_PER_TYPE, YES_PER_TYPE, NO_PER_TYPE = 39, 15, 35   # static_asserts per element type in corr/c04_layout.cpp (floors; the macros count themselves)
+N_ENTRIES = 456              # extraction entries when this check was last extended (floor)
 CONSTEVAL_MIN = 108          # Vec2/3/4 x (2+3+4 indices) x 2 evaluation modes x 6 element types
 SHOWCHECK_MIN = 720          # 10 types x 6 non-character element types x 3 stream states x 4 value variants
 ELEMENT_TYPES = ["double", "float", "half", "int", "int64", "short", "uchar"]
@@ -33,30 +37,51 @@ def run(chk):
     chk.trusted = ["Lean 4.33 kernel; axioms propext/Classical.choice/Quot.sound at most",
                    "translator harness/sym (Sym operator overloads + Lean emitter), validated on every run by TV at 7 element types",
                    "g++ instantiating the real templates at T = Sym means the same as at the element types up to the scalar operators (TV checks)",
-                   "harness/sym/ops_c04.h generators and the two-type evaluator of the conversion entries (slot casts only; anything else is a failure)"]
+                   "harness/sym/ops_c04.h generators and the two-type evaluator of the conversion entries (slot casts only; anything else is a failure)",
+                   "scalar equalWithAbsError / equalWithRelError (ImathMath.h:148-167) are NOT extracted in C04: sym.h overloads them for Sym by hand "
+                   "(ABSDIFF(x1,x2) <= e [* ABS x1]); that this reading is the source is the business of C17 (Props/C17.lean gen_equalWithAbsError / "
+                   "gen_equalWithRelError, extracted through the explicit-<T> call) and, inside C04, only of TV (sampled, 7 element types)",
+                   "tools/props/c04_headers.py: the declaration parser and the rule table mapping header declarations to entries / named exclusions"]
     chk.assumptions = ["the scalar operators of each element type (incl. integer promotion, half's float round trip) are what 'the scalar operation' means",
                        "equalWithAbs/RelError: C++ evaluates the comparison in the promoted type (int for short/unsigned char, float for half); the "
                        "theorems' scalar type is that type there, and TV evaluates the tree in it",
+                       "==, != : the theorems `Gen.X.eq a b = true <-> a = b` are over Lean equality. For the integer element types that IS the scalar ==. "
+                       "For float/double/half the scalar == is not equality (NaN != NaN, +0 == -0): there the theorems establish the SHAPE (the conjunction "
+                       "over every slot of the scalar comparison, no slot skipped or repeated), and what the scalar comparison does at NaN and signed zeros "
+                       "is decided by TV alone (twins with NaN against itself and +0 against -0 in every slot, bitwise on the Boolean; sampled)",
+                       "`*.showKeepsState` are run-time observations at T = Sym recorded as the literal `true` (four stream states), re-observed by TV at "
+                       "the 7 element types and by showcheck; they are not proofs about the source text",
+                       "int / int64: signed overflow is undefined, so wrap-around is not exercised; extremes are exercised wherever no intermediate "
+                       "result overflows. short / unsigned char: full range incl. wrap on store",
                        "'component-wise cast' = the scalar static_cast S -> T applied to each slot; the theorems hold for any function `cast`",
                        "stream output: right adjustment, space fill, no pending width (three stream states: default, fixed/precision 3, scientific/precision 9); "
                        "a matrix element's 'own printed form' is its form under the flags the matrix operator sets (scientific unless fixed, showpoint)",
                        "not covered: operator== / != / scalar * with an operand of a DIFFERENT element type (S != T: mixed arithmetic in the common type)"]
     chk.rule = ("every registered (type, operator, spelling) entry is path-extracted from the current headers and must have a theorem named after it; "
-                "TV inputs: small integers, reals, unit vectors, signed zeros, extremes, NaN/inf (branch-free entries), full-range values for "
-                "short/uchar; equalWith*: twins (equal / one slot differing / within or just beyond e), every leaf of every tree reached; division at "
+                "TV inputs: small integers, reals, unit vectors, signed zeros, float extremes, NaN/inf (branch-free entries), full-range values for "
+                "short/uchar, int/int64 extremes that do not overflow (branch-free entries, ==, !=, equalWith*); equalWith*: twins (equal / one slot differing / within or just beyond e), every leaf of every tree reached; division at "
                 "double/float/half: +-0, +-inf, NaN, denormal, max in both operands; conversions: rounding ties, denormals, overflow, truncation, wrap; "
                 "non-trivial = TV evaluation whose inputs are not all equal")
     bins = troute.build_extractors(chk, [dict(name="sym_c04", source="sym/sym_c04.cpp", half=True),
                                          dict(name="c04_layout", source="corr/c04_layout.cpp", half=True)])
     if bins.get("c04_layout"):
         rc, out = lib.sh([bins["c04_layout"]])
-        m = re.search(r"(\d+) layout assertions and (\d+) interop-selection assertions", out)
-        ok = rc == 0 and m is not None and int(m.group(1)) >= 280 and int(m.group(2)) >= 315
-        name = "layout: sizeof/offsetof/standard_layout for every (type, element type); interop constructors/assignments selected exactly for the right element type and count"
+        m = re.search(r"(\d+) layout assertions, (\d+) positive and (\d+) negative interop-selection assertions", out)
+        # the harness's macros count themselves (one increment per compiled static_assert); the same macros are counted in the source text
+        src = open(os.path.join(lib.VERIF, "harness", "corr", "c04_layout.cpp")).read()
+        body = src[src.index("static void run ()"):src.index("int main ()")]
+        n_lay = len(re.findall(r"\b(?:LAY|OFF) \(", body)); n_yes = len(re.findall(r"\bYES \(", body)); n_no = len(re.findall(r"\bNO \(", body))
+        got = tuple(int(x) for x in m.groups()) if m else (0, 0, 0)
+        ok = (rc == 0 and m is not None and got == (7 * n_lay, 7 * n_yes, 7 * n_no)
+              and n_lay >= LAYOUT_PER_TYPE and n_yes >= YES_PER_TYPE and n_no >= NO_PER_TYPE and "static_assert" not in body)
+        name = ("layout: sizeof/offsetof/standard_layout for every (type, element type); interop constructors/assignments selected exactly for the "
+                "right element type and count (%d layout + %d positive + %d negative static_asserts per element type, counted)" % (n_lay, n_yes, n_no))
         chk.oblige(name, "static-assert", ok, out[-300:])
-        chk.extra["layout_asserts"] = out.strip().split("\n")[-1]
+        chk.extra["layout_asserts"] = {"printed": out.strip().split("\n")[-1], "macro_uses_in_source_per_element_type": [n_lay, n_yes, n_no]}
         if not ok:
-            chk.fail(name, "layout:harness", "the layout harness ran but did not report the expected number of assertions", {"output": out[-500:]}, False)
+            chk.fail(name, "layout:harness", "the layout harness compiled and ran, but the number of assertions it executed (%s) is not 7 x the number of "
+                     "assertion macros in its source (%s), or is below the floor %s" % (got, (n_lay, n_yes, n_no), (LAYOUT_PER_TYPE, YES_PER_TYPE, NO_PER_TYPE)),
+                     {"output": out[-500:]}, False)
     # build-configuration dimension: the C++23-only `if consteval` bodies of Vec2/3/4::operator[] const
     ok, cebin, celog = lib.cxx_build("c04_consteval", ["corr/c04_consteval.cpp"],
                                      lang_flags=["-std=c++23", "-O1", "-I" + os.path.join(lib.REPO, "src", "Imath"), "-I" + lib.imath_config_dir()])
@@ -109,7 +134,8 @@ def run(chk):
     got_types = dict((t, int(v)) for t, v in per_type.items())
     reach("tv-reach: every entry validated at all seven element types (conversion entries at the four narrowing pairs)",
           # (a validator stops at an entry's first failing input: the counts are only comparable when TV itself passed)
-          not tv_ok or (all(got_types.get(t, 0) > 0 for t in ELEMENT_TYPES + CAST_PAIRS) and len(set(got_types.get(t, 0) for t in ELEMENT_TYPES)) == 1),
+          not tv_ok or (all(got_types.get(t, 0) > 0 for t in ELEMENT_TYPES + CAST_PAIRS) and len(set(got_types.get(t, 0) for t in ("double", "float", "half", "short", "uchar"))) == 1
+                        and got_types.get("int", 0) == got_types.get("int64", -1) > got_types.get("short", 0)),
           got_types, "tv-reach:element-types", "an element type is missing from translator validation or entries are validated at fewer types than others")
     eq = dict((t, (stats.get("eqerr.%s.true" % t, 0), stats.get("eqerr.%s.false" % t, 0))) for t in ELEMENT_TYPES)
     reach("tv-reach: equalWithAbs/RelError take both outcomes at each of the seven element types, every leaf of all %d trees is reached, "
@@ -132,8 +158,15 @@ def run(chk):
           all(stats.get("div.%s.%s" % (t, c), 0) >= 100 for t in ("double", "float", "half") for c in ("zero", "inf", "nan")),
           dict((k, v) for k, v in stats.items() if k.startswith("div.")), "tv-reach:division",
           "the division generator no longer feeds +-0 / inf / NaN at the floating element types")
+    reach("tv-reach: every branch-free entry is also run at int and int64 on extreme operands (max, min, +-2^(bits/2), any bit pattern) that keep every "
+          "intermediate result in range (checked node by node in 128-bit arithmetic); ==, != and equalWith* see integer extremes too",
+          all(stats.get("intx.%s.branch_free_entries" % t, 0) >= 300
+              and stats.get("intx.%s.branch_free_entries_with_extreme_inputs" % t, -1) == stats.get("intx.%s.branch_free_entries" % t, 0)
+              and stats.get("eq.%s.integer_extremes" % t, 0) >= 100 and stats.get("eqerr.%s.integer_extremes" % t, 0) >= 50 for t in ("int", "int64")),
+          dict((k, v) for k, v in stats.items() if k.startswith("intx.") or k.endswith("integer_extremes")), "tv-reach:integer-extremes",
+          "int / int64 entries are no longer validated on extreme operands")
     reach("tv-reach: conversion entries see inputs the cast changes (rounding, truncation, wrap) at each narrowing pair",
-          all(stats.get("cast.%s.with_an_inexact_slot" % p, 0) >= 100 and stats.get("cast.%s.evaluations" % p, 0) >= n_cast for p in CAST_PAIRS),
+          all(stats.get("cast.%s.with_an_inexact_slot" % p, 0) >= 100 and stats.get("cast.%s.evaluations" % p, 0) >= 32 * n_cast for p in CAST_PAIRS),
           dict((k, v) for k, v in stats.items() if k.startswith("cast.")), "tv-reach:conversions",
           "the conversion generator no longer produces inputs on which the scalar cast is not the identity")
     troute.lean_tv(chk, bins["sym_c04"], "c04", index, n=6 if chk.thorough else 2)
@@ -172,6 +205,8 @@ def run(chk):
     required = {"ImathVerif.Props.C04": [], "ImathVerif.Props.C04Show": [], "ImathVerif.Props.C04Alias": []}
     for d in index:
         required[PROPS_OF_MODULE.get(d.get("module"), "ImathVerif.Props.C04")].append(theorem_name(d["name"]))
+    # lemmas that are not entries but part of what is claimed (left scalar of Quat / Matrix for a commutative scalar; bridges to |x - y|)
+    required["ImathVerif.Props.C04"] += ["Quat_smul_left", "M22_smul_left", "M33_smul_left", "M44_smul_left", "sabsdiff_eq_abs", "sabs_eq_abs"]
     declared = {}
     for mod in required:
         declared[mod] = set(n for (n, _, _) in lib.theorems_in(os.path.join(lib.LEAN, *mod.split(".")) + ".lean"))
@@ -179,13 +214,79 @@ def run(chk):
                if theorem_name(d["name"]) not in declared[PROPS_OF_MODULE.get(d.get("module"), "ImathVerif.Props.C04")]]
     entry_names = set(theorem_name(d["name"]) for d in index)
     name = "coverage: every one of the %d extracted entries has a theorem named after it in its Props file" % len(index)
-    chk.oblige(name, "coverage", not missing and len(index) >= 429, [m_[0] for m_ in missing][:20] or None)
+    chk.oblige(name, "coverage", not missing and len(index) >= N_ENTRIES, [m_[0] for m_ in missing][:20] or None)
     chk.extra["theorems_without_entry"] = sorted(n for mod in declared for n in declared[mod] if n not in entry_names)[:40]
     for en, mod in missing:
         chk.fail(name, "missing:" + theorem_name(en), "extracted entry %s has no theorem %s in %s" % (en, theorem_name(en), mod), {"entry": en}, False)
-    if len(index) < 429 and not missing:
-        chk.fail(name, "coverage:entries", "the extraction table shrank to %d entries (429 when this check was written)" % len(index), {}, False)
+    if len(index) < N_ENTRIES and not missing:
+        chk.fail(name, "coverage:entries", "the extraction table shrank to %d entries (%d when this check was last extended)" % (len(index), N_ENTRIES), {}, False)
     # (a missing theorem is reported by check_theorems through `required=` with key missing:<name>)
+    # the theorem named after an entry must be ABOUT that entry: its statement mentions `Gen.<entry>` exactly once and nothing else from Gen
+    # (the statements themselves are pinned by the generic statement-pin mechanism of lib.check_theorems)
+    off = []
+    for mod in required:
+        stm = lib.theorem_statements(os.path.join(lib.LEAN, *mod.split(".")) + ".lean")
+        for d in index:
+            if PROPS_OF_MODULE.get(d.get("module"), "ImathVerif.Props.C04") != mod:
+                continue
+            st = stm.get(theorem_name(d["name"]))
+            if st is None:
+                continue
+            gens = re.findall(r"Gen\.([A-Za-z0-9_]+\.[A-Za-z0-9_]+)", st)
+            if gens != [d["name"]]:
+                off.append((d["name"], gens))
+    name = "coverage: the theorem of every entry mentions `Gen.<entry>` exactly once and no other extracted definition (no Gen-vs-Gen statement)"
+    chk.oblige(name, "coverage", not off, off[:10] or None)
+    for en, gens in off[:20]:
+        chk.fail(name, "coverage:statement:" + theorem_name(en), "theorem %s does not state a fact about Gen.%s alone (it mentions %s)" % (theorem_name(en), en, gens),
+                 {"entry": en, "mentions": gens}, False)
+    # entries that were pinned (tools/pins/extras_c04.json) and are gone: an entry swapped for another keeps the count
+    import json
+    pp = os.path.join(lib.VERIF, "tools", "pins", "extras_c04.json")
+    pinned = set(json.load(open(pp))) if os.path.exists(pp) else set()
+    gone = sorted(pinned - set(d["name"] for d in index))
+    name = "coverage: no pinned extraction entry has disappeared (%d pinned)" % len(pinned)
+    chk.oblige(name, "coverage", not gone and len(pinned) > 0, gone[:10] or None)
+    for en in gone[:20]:
+        chk.fail(name, "coverage:entry-gone:" + en, "extraction entry %s is pinned in tools/pins/extras_c04.json but no longer extracted" % en, {"entry": en}, False)
+
+    # ---- header <-> table: every declaration of the anchored class bodies / free operators maps to entries or to a named exclusion
+    try:
+        hd = c04_headers.check(os.path.join(lib.REPO, "src", "Imath"), set(d["name"] for d in index))
+    except Exception as ex:
+        hd = None
+        name = "coverage-header: declarations of the anchored headers could be read"
+        chk.oblige(name, "coverage", False, repr(ex))
+        chk.fail(name, "coverage:header:parse", "the class bodies of the anchored headers could not be parsed (%r)" % ex, {}, False)
+    if hd:
+        orphans = sorted(set(d["name"] for d in index) - hd["used_entries"])
+        okh = not hd["unmapped"] and not hd["missing_entries"] and not orphans and hd["declarations"] >= 542
+        name = ("coverage-header: each of the %d member / constructor / operator declarations of Vec2/3/4, Color3/4, Shear6, Quat, Matrix22/33/44 and free "
+                "operators of the five headers maps to extraction entries (%d) or to a named exclusion (%d); every entry is the target of a declaration"
+                % (hd["declarations"], hd["mapped"], hd["excluded"]))
+        chk.oblige(name, "coverage", okh, (hd["unmapped"][:8] + hd["missing_entries"][:8] + orphans[:8]) or None)
+        chk.extra["header_table"] = {"declarations": hd["declarations"], "mapped_to_entries": hd["mapped"], "named_exclusions": hd["exclusions"],
+                                     "if_consteval_bodies": hd["consteval"]}
+        for cls, dcl in hd["unmapped"][:20]:
+            chk.fail(name, "coverage:header:%s:%s" % (cls, re.sub(r"\s+", "_", dcl)[:60]),
+                     "%s declares `%s`, which maps to no extraction entry and to no named exclusion (tools/props/c04_headers.py RULES): a new or changed "
+                     "member is not covered by C04" % (cls, dcl), {"class": cls, "declaration": dcl}, False)
+        for cls, dcl, en in hd["missing_entries"][:20]:
+            chk.fail(name, "coverage:header-entry:" + en, "`%s` of %s should be exercised by extraction entry %s, which does not exist" % (dcl, cls, en),
+                     {"class": cls, "declaration": dcl, "entry": en}, False)
+        for en in orphans[:20]:
+            chk.fail(name, "coverage:entry-without-declaration:" + en, "extraction entry %s is not the target of any header declaration in the rule table" % en, {}, False)
+        if okh is False and not (hd["unmapped"] or hd["missing_entries"] or orphans):
+            chk.fail(name, "coverage:header:declarations", "only %d declarations were found in the anchored headers (542 when this check was written)" % hd["declarations"], {}, False)
+        cls_ok = hd["classes"] == dict((f, c) for f, c in c04_headers.CLASSES)
+        ce_ok = hd["consteval"] == c04_headers.IF_CONSTEVAL
+        name = "coverage-header: the anchored headers define exactly the ten aggregate classes, and exactly the 3 `if consteval` bodies the consteval harness exercises"
+        chk.oblige(name, "coverage", cls_ok and ce_ok, None if (cls_ok and ce_ok) else {"classes": hd["classes"], "if_consteval": hd["consteval"]})
+        if not cls_ok:
+            chk.fail(name, "coverage:header:classes", "the set of aggregate classes in the anchored headers changed", {"classes": hd["classes"]}, False)
+        if not ce_ok:
+            chk.fail(name, "coverage:header:if-consteval", "the number of `if consteval` bodies per header changed (a constant-evaluation body that "
+                     "corr/c04_consteval.cpp does not exercise)", {"found": hd["consteval"], "expected": c04_headers.IF_CONSTEVAL}, False)
 
     def search_cast(name_):
         # conversion theorems: replay pairwise distinct, non-float-representable numbers at double -> float and compare slot by slot
